@@ -271,20 +271,7 @@ func ruleOpenFlags(r *Run, p *Program, rule string) {
 		return
 	}
 	r.fn(funcKey(f))
-	oc := func(name string) (int64, bool) {
-		for _, pk := range p.Pkgs {
-			for _, im := range pk.Types.Imports() {
-				if im.Path() == "os" {
-					if c, ok := im.Scope().Lookup(name).(*types.Const); ok {
-						if v, ok := constant.Int64Val(c.Val()); ok {
-							return v, true
-						}
-					}
-				}
-			}
-		}
-		return 0, false
-	}
+	oc := func(name string) (int64, bool) { return osConst(p, name) }
 	rdonly, ok1 := oc("O_RDONLY")
 	create, ok2 := oc("O_CREATE")
 	rdwr, ok3 := oc("O_RDWR")
@@ -965,4 +952,21 @@ func fieldNameOfLoad(v ssa.Value) string {
 		return fieldName(ld.X)
 	}
 	return ""
+}
+
+// osConst: the value of an integer constant of package os in the loaded configuration (the O_* flags differ between
+// operating systems).
+func osConst(p *Program, name string) (int64, bool) {
+	for _, pk := range p.Pkgs {
+		for _, im := range pk.Types.Imports() {
+			if im.Path() == "os" {
+				if c, ok := im.Scope().Lookup(name).(*types.Const); ok {
+					if v, ok := constant.Int64Val(c.Val()); ok {
+						return v, true
+					}
+				}
+			}
+		}
+	}
+	return 0, false
 }
